@@ -19,7 +19,11 @@ from . import shapes_common as sc
 from .shapes_common import Fr
 
 PID = "C13"
-PROOF_FILES = ["theories/Props/C13.v", "theories/Proofs/ContainProofs.v", "theories/Proofs/ContainCross.v", "theories/Spec/Shapes.v", "theories/Base/RVec2.v"]
+PROOF_FILES = ["theories/Props/C13.v", "theories/Proofs/ContainProofs.v", "theories/Proofs/ContainCross.v", "theories/Spec/Shapes.v",
+               "theories/Base/RVec2.v", "theories/Checker/ShapesCert.v"]
+TRACE_SCOPE = {"containment_test.py": ["points_in_sphere", "points_in_capsule", "points_in_ellipsoid", "points_in_disk",
+                                       "points_in_cone", "points_in_cylinder", "points_in_box", "points_in_convex_mesh"]}
+EPS = 2.0 ** -52
 KINDS = ["sphere", "capsule", "ellipsoid", "disk", "cone", "cylinder", "box", "mesh"]
 PUSH = [1.5, 4.0, 100.0, 1e4]
 
@@ -148,18 +152,25 @@ def feature_points(sh):
     if k == "box":
         pts += [[sx * e[0], sy * e[1], sz * e[2]] for sx in (-1, 1) for sy in (-1, 1) for sz in (-1, 0, 1)]
     elif k in ("cylinder",):
-        pts += [[0, 0, e[2]], [0, 0, -e[2]], [e[0], 0, e[2]], [0, -e[0], -e[2]], [e[0], 0, 0], [0, 0, 2 * e[2]]]
+        pts += [[0, 0, e[2]], [0, 0, -e[2]], [e[0], 0, e[2]], [0, -e[0], -e[2]], [e[0], 0, 0], [0, 0, 2 * e[2]],
+                [e[0], e[0], 0], [e[0] / 2, 0, -1.5 * e[2]], [1.5 * e[0], 0, e[2] / 2]]
     elif k == "capsule":
-        pts += [[0, 0, e[2]], [0, 0, -e[2]], [e[0], 0, sh["h"] / 2], [0, e[0], 0], [0, 0, sh["h"] / 2]]
+        pts += [[0, 0, e[2]], [0, 0, -e[2]], [e[0], 0, sh["h"] / 2], [0, e[0], 0], [0, 0, sh["h"] / 2],
+                [0, 0, 1.25 * e[2]], [0, 0, -1.25 * e[2]], [e[0] / 2, 0, 1.5 * e[2]], [0, -e[0] / 2, -1.5 * e[2]],
+                [e[0], 0, -sh["h"] / 2], [e[0], e[0], 0]]
     elif k == "cone":
         pts += [[0, 0, sh["h"]], [0, 0, sh["h"] / 2], [sh["r"], 0, 0], [0, -sh["r"], 0], [sh["r"] / 2, 0, sh["h"] / 2],
-                [0, 0, -sh["h"] / 4], [0, 0, 1.25 * sh["h"]]]
+                [0, 0, -sh["h"] / 4], [0, 0, 1.25 * sh["h"]], [sh["r"] / 2, 0, 0.75 * sh["h"]], [sh["r"], sh["r"], 0],
+                [sh["r"] / 4, 0, sh["h"] / 2], [0, sh["r"], sh["h"] / 4], [sh["r"] / 2, 0, -sh["h"] / 8]]
     elif k == "ellipsoid":
         pts += [[e[0], 0, 0], [0, -e[1], 0], [0, 0, e[2]], [e[0] / 2, e[1] / 2, e[2] / 2]]
     elif k == "sphere":
         pts += [[e[0], 0, 0], [0, 0, -e[0]], [0, 2 * e[0], 0]]
     elif k == "disk":
-        pts += [[sh["r"], 0, 0], [0, -sh["r"], 0], [sh["r"] / 2, sh["r"] / 2, 0], [0, 0, sh["r"]], [2 * sh["r"], 0, 0]]
+        # the slab of half width 10*eps around the plane: 5, 10, 11, 15 eps (absolute thresholds)
+        pts += [[sh["r"], 0, 0], [0, -sh["r"], 0], [sh["r"] / 2, sh["r"] / 2, 0], [0, 0, sh["r"]], [2 * sh["r"], 0, 0],
+                [sh["r"] / 2, 0, 5 * EPS], [0, sh["r"] / 2, -10 * EPS], [0, 0, 11 * EPS], [sh["r"] / 4, 0, -15 * EPS],
+                [sh["r"], 0, 8 * EPS]]
     elif k == "mesh":
         pts += [list(v) for v in sh["vs"][:4]]
     return [[float(x) for x in p] for p in pts]
@@ -168,7 +179,7 @@ def feature_points(sh):
 def gen_case(rng, kind, stream):
     sh = sc.gen_shape(rng, kind, stream, size_lo=0.2, size_hi=1e2)
     if kind == "mesh":
-        if stream == "lattice" or len(sh["vs"]) < 4:
+        if stream in ("lattice", "exact") or len(sh["vs"]) < 4:
             s = rng.choice(sc.LATTICE)
             base = rng.choice(["cube", "octa"])
             if base == "cube":
@@ -193,6 +204,8 @@ def fill_points(rng, case):
     feats = feature_points(sh)
     while len(pts) < n:
         r = rng.random()
+        if sh.get("stream") == "exact":
+            r = 0.3 if r < 0.7 else r          # mostly exact features: every operation of model and code is exact
         if r < 0.25:
             k = [rng.uniform(-1.5, 1.5) * e[i] for i in range(3)]
             if sh["kind"] == "disk" and rng.random() < 0.5:
@@ -220,8 +233,8 @@ def gen_cases(rng, tier):
     per = 14 if tier == "quick" else 120
     cases = []
     for kind in KINDS:
-        for stream in ("random", "lattice"):
-            for _ in range(per):
+        for stream, share in (("random", 1.0), ("lattice", 0.6), ("exact", 0.6)):
+            for _ in range(int(per * share)):
                 cases.append(gen_case(rng, kind, stream))
     rng.shuffle(cases)
     return cases
@@ -249,12 +262,12 @@ def coq_case_expr(case):
         elif k == "box":
             items.append(f"b2n (point_in_box {P} {sc.cpose(sh['R'], sh['t'])} {sc.cv(sh['size'])})")
         elif k == "mesh":
-            items.append(f"ob (point_in_convex_mesh {P} T vs ts)")
+            items.append(f"ob (point_in_convex_mesh {P} mT mvs mts)")
     if k == "mesh":
         vs = sc.clist(sc.cv(v) for v in sh["vs"])
         ts = sc.clist("(" + ", ".join(sc.cnat(i) for i in t) + ")" for t in sh["triangles"])
-        return f"let T := {sc.cpose(sh['R'], sh['t'])} in let vs := {vs} in let ts := {ts} in {sc.clist(items)}"
-    return sc.clist(items)
+        return [("mT", sc.cpose(sh['R'], sh['t'])), ("mvs", vs), ("mts", ts)], sc.clist(items)
+    return [], sc.clist(items)
 
 
 # ---------------------------------------------------------------- oracle
@@ -302,20 +315,116 @@ def judge_case(case, r, classes):
     return fails
 
 
+# ---------------------------------------------------------------- separating direction (untrusted hint)
+def outward_direction(sh, p):
+    """a world-frame direction along which p sticks out of the shape (floating point; the Coq checker
+    outside_cert only needs SOME direction n with  p.n - h_S(n) >= tau*|n|)"""
+    import numpy as np
+    from .. import narrow
+    k = sh["kind"]
+    p = np.array(p, float)
+    if k == "disk":
+        c, n = np.array(sh["c"], float), np.array(sh["n"], float)
+        w = p - c
+        d = float(w @ n)
+        u = w - d * n
+        lu = float(np.linalg.norm(u))
+        q = c + (u * (sh["r"] / lu) if lu > sh["r"] else u)
+        return (p - q).tolist()
+    M, c = frame(sh)
+    M = np.array(M, float)
+    loc = M.T @ (p - np.array(c, float))
+    if k == "sphere":
+        nl = loc
+    elif k == "box":
+        h = np.array(sh["size"], float) / 2
+        nl = loc - np.clip(loc, -h, h)
+    elif k == "cylinder":
+        rho = math.hypot(loc[0], loc[1])
+        f = min(1.0, sh["r"] / rho) if rho > 0 else 1.0
+        q = np.array([loc[0] * f, loc[1] * f, min(max(loc[2], -sh["l"] / 2), sh["l"] / 2)])
+        nl = loc - q
+    elif k == "capsule":
+        t = min(max(loc[2], -sh["h"] / 2), sh["h"] / 2)
+        nl = loc - np.array([0.0, 0.0, t])
+    elif k == "cone":
+        rho = math.hypot(loc[0], loc[1])
+        rs, zs = narrow._tri_project(rho, float(loc[2]), sh["r"], sh["h"])
+        radial = np.array([loc[0], loc[1], 0.0]) / rho if rho > 0 else np.array([1.0, 0.0, 0.0])
+        nl = (rho - rs) * radial + np.array([0.0, 0.0, loc[2] - zs])
+    elif k == "ellipsoid":
+        a = np.array(sh["radii"], float)
+        t = narrow._ell_project(loc, [np.array([a[0], 0, 0]), np.array([0, a[1], 0]), np.array([0, 0, a[2]])])
+        nl = loc - a * np.array(t)
+    elif k == "mesh":
+        vs = np.array(sh["vs"], float)
+        best, nl = 0.0, None
+        for (i, j, kk) in sh["triangles"]:
+            nf = np.cross(vs[j] - vs[i], vs[kk] - vs[i])
+            ln = float(np.linalg.norm(nf))
+            if ln == 0:
+                continue
+            sdist = float(nf @ (loc - vs[i])) / ln
+            if sdist > best:
+                best, nl = sdist, nf / ln
+        if nl is None:
+            return None
+    else:
+        return None
+    if float(np.linalg.norm(nl)) == 0.0:
+        return None
+    return (M @ nl).tolist()
+
+
+def exact_point(sh, p):
+    """model and implementation evaluate the predicate at p without rounding: signed-permutation pose,
+    power-of-two sizes, dyadic coordinates with few bits"""
+    if not sc.exact_pose(sh):
+        return False
+    k = sh["kind"]
+    sizes = []
+    if k in ("sphere", "disk"):
+        sizes = [sh["r"]]
+    elif k == "box":
+        sizes = list(sh["size"])
+    elif k == "cylinder":
+        sizes = [sh["r"], sh["l"]]
+    elif k in ("capsule", "cone"):
+        sizes = [sh["r"], sh["h"]]
+    elif k == "ellipsoid":
+        sizes = list(sh["radii"])
+    elif k == "mesh":
+        sizes = [1.0]
+        if not all(sc.is_lattice_number(x, 16.0) for v in sh["vs"] for x in v):
+            return False
+    if not all(sc.is_pow2_or_zero(x) and 2.0 ** -4 <= x <= 2.0 ** 4 for x in sizes):
+        return False
+    c = sh["c"] if k in ("sphere", "disk") else sh["t"]
+    # p - c must have few significant bits (the slab points of the disk carry multiples of 2^-52)
+    for a, b in zip(p, c):
+        d = Fr(a) - Fr(b)
+        if d != 0 and (d.denominator > 2 ** 60 or abs(d.numerator) >= 2 ** 12 or float(a) - float(b) != float(d)):
+            return False
+    return True
+
+
 # ---------------------------------------------------------------- running
-def run_impl(payloads_cases, script_tag):
+def run_impl(payloads_cases, script_tag, hits=None):
     cases = payloads_cases
     nw = min(cm.NCPU, max(1, len(cases) // 25))
     chunks = [cases[i::nw] for i in range(nw)]
-    res = cm.run_impl_parallel(PID, "c13", [dict(cases=c) for c in chunks], timeout=900, tag=script_tag)
+    res = cm.run_impl_parallel(PID, "c13", [dict(cases=c) for c in chunks], timeout=3000, tag=script_tag)
     out = [None] * len(cases)
     for w, (rr, ch) in enumerate(zip(res, chunks)):
         idxs = list(range(w, len(cases), nw))
         if rr["status"] == "ok":
+            if hits is not None:
+                for f, lines in (rr["result"].get("line_hits") or {}).items():
+                    hits.setdefault(f, set()).update(lines)
             for i, x in zip(idxs, rr["result"]["results"]):
                 out[i] = x
         else:
-            singles = cm.run_impl_parallel(PID, "c13", [dict(cases=[c]) for c in ch], timeout=120, tag=script_tag + "_iso")
+            singles = cm.run_impl_parallel(PID, "c13", [dict(cases=[c]) for c in ch], timeout=1800, tag=script_tag + "_iso")
             for i, s in zip(idxs, singles):
                 if s["status"] == "ok":
                     out[i] = s["result"]["results"][0]
@@ -353,14 +462,15 @@ def run(tier, seed, replay=None):
                      "normal with k in {1.5,4,100,1e4} (10%: k in {0,+-0.3}, inside the band); distinct_nontrivial counts "
                      "distinct (case hash, point index) pairs that the exact oracle classified 'in' or 'out' (i.e. judged points)")
     R.assumptions += [
-        "theorems are about the Gallina model Model/Contain.v instantiated at exact real arithmetic; the tie to /repo is the correspondence check run here (binary64 instance of the same model vs implementation, booleans equal wherever the oracle certifies a 1e-9*L margin)",
-        "the property oracle of this check is an independent exact Python oracle (fractions.Fraction), NOT a Coq-extracted checker: sufficient exact tests for 'ball of radius 1e-9*L inside' / 'distance >= 1e-9*L' in local coordinates M^-1 (p - c) of the exact float pose; points the tests cannot certify (band) are not judged",
+        "theorems are about the Gallina model Model/Contain.v instantiated at exact real arithmetic; the tie to /repo is the correspondence check run here (binary64 instance of the same model vs implementation, booleans equal wherever the oracle certifies a 1e-9*L margin, AND - boundary points and absolute thresholds included - wherever every operation is exact in binary64: axis-permutation pose, power-of-two sizes, dyadic points)",
+        "per-input verdict: the gate is an independent exact Python oracle (fractions.Fraction): sufficient exact tests for 'ball of radius 1e-9*L inside' / 'distance >= 1e-9*L' in local coordinates M^-1 (p - c) of the exact float pose; points the tests cannot certify (band) are not judged; the 'must be False' verdicts are doubled by the Coq-proven checker outside_cert (Checker/ShapesCert.v, a separating direction, vm_compute on exact rationals): coverage.certificates",
         "convex meshes: 'in' relies on the triangles (scipy ConvexHull via make_convex_mesh, or the cube / octahedron tables) forming the boundary of the hull; 'out' uses only faces verified exactly to be supporting half-spaces of all vertices",
         "a flat disk has no point 1e-9*L inside, so for points_in_disk only the False side, the model correspondence and the cross-agreements are judged",
         "IEEE rounding is not modelled by the theorems; its effect is only measured here against 1e-9*L",
         "harness/compat.py import shim; numpy/numba/CPython/BLAS",
     ]
-    R.check_proofs(PROOF_FILES)
+    R.check_proofs(PROOF_FILES, build_targets=["theories/Props/C13.vo", "theories/Model/ShapesRun.vo",
+                                               "theories/Checker/ShapesCert.vo"])
 
     cases = []
     corpus = cm.VERIF / "corpus" / PID
@@ -373,7 +483,8 @@ def run(tier, seed, replay=None):
         cases += gen_cases(R.rng, tier)
     cases, unbuilt = prepare(R.rng, cases)
 
-    results = run_impl(cases, "impl")
+    hits = {}
+    results = run_impl(cases, "impl", hits)
     classes = [classify_case(c) for c in cases]
     bad = []
     n_eval = 0
@@ -394,6 +505,59 @@ def run(tier, seed, replay=None):
     R.cov["cases_not_constructible"] = unbuilt
     R.cov["distinct_nontrivial"] = len(distinct)
 
+    # Coq-proven certificates for the 'must be False' verdicts: a separating direction
+    from .. import narrow
+    jobs = []
+    for ci, (c, r, cl) in enumerate(zip(cases, results, classes)):
+        if "contained" not in r:
+            continue
+        sh = c["shape"]
+        if sh["kind"] == "mesh" and len(sh["vs"]) > 40:
+            continue
+        tau = narrow._q(Fr(1e-9) * Fr(sc.shape_L(sh)))
+        items, pts = [], []
+        try:
+            spec = sc.to_spec(sh, None)
+            for j, (p, x) in enumerate(zip(c["points"], cl)):
+                if x != "out":
+                    continue
+                n = outward_direction(sh, p)
+                if n is None or not sc.finite(n):
+                    continue
+                items.append(f"outside_cert shS {narrow.vq(p)} {narrow.vq(n)} {tau}")
+                pts.append(j)
+            if items:
+                jobs.append((ci, pts, ([("shS", narrow.sh_expr(spec))], f"[{'; '.join(items)}]")))
+        except Exception as e:
+            R.notes.append(dict(certificate_construction_failed=f"{type(e).__name__}: {str(e)[:200]}", case_hash=cm.canon_hash(c)))
+    cert = dict(out_class_points=hist_cls["out"], submitted=sum(len(p) for _, p, _ in jobs), accepted=0, rejected=0)
+    try:
+        outs = sc.coq_eval_blocks(PID, sc.CERT_HEADER, [e for _, _, e in jobs], tag="cert",
+                                  per_file=max(2, len(jobs) // (cm.NCPU * 3) + 1), timeout=1500)
+        for (ci, pts, _), o in zip(jobs, outs):
+            verdicts = [x.strip() == "true" for x in o.strip().strip("[]").split(";")]
+            if len(verdicts) != len(pts):
+                raise RuntimeError(f"unexpected checker output {o[:200]}")
+            for j, ok in zip(pts, verdicts):
+                cert["accepted" if ok else "rejected"] += 1
+                if ok and results[ci]["contained"][j]:
+                    # certified >= tau outside (theorem) and the predicate says True: this IS a failure
+                    if not any(cc is cases[ci] for cc, _ in bad):
+                        bad.append((cases[ci], [f"points_in_{cases[ci]['shape']['kind']}: point {j} = {cases[ci]['points'][j]} is certified (outside_cert_sound) "
+                                                 f"to be at least 1e-9*L away from the shape but the predicate says True"]))
+    except RuntimeError as e:
+        R.notes.append(dict(certificate_evaluation_failed=str(e)[:500]))
+    cert["theorem"] = ("Checker/ShapesCert.v outside_cert_sound (distance of the point to every point of the shape >= 1e-9*L); "
+                       "the 'at least 1e-9*L inside' side is judged by the Python oracle only")
+    R.cov["certificates"] = cert
+    from ..impl import shapes_trace as st
+    import os
+    path = str(cm.REPO / "distance3d" / "containment_test.py")
+    cov = st.summarize({os.path.realpath(path): sorted(hits.get("containment_test.py", []))}, {path: TRACE_SCOPE["containment_test.py"]})
+    R.cov["impl_line_coverage"] = dict(
+        executable=sum(v["executable"] for v in cov.values()), hit=sum(v["hit"] for v in cov.values()),
+        functions=len(cov), missed={k: v["missed"] for k, v in cov.items() if v["missed"]})
+
     exprs, idx = [], []
     for i, (c, r) in enumerate(zip(cases, results)):
         if "exc" in r:
@@ -402,15 +566,20 @@ def run(tier, seed, replay=None):
         idx.append(i)
     ndiff = 0
     band_diff = 0
+    n_exact = 0
     try:
-        outs = cm.coq_eval_lines(PID, sc.HEADER, exprs, per_file=max(4, len(exprs) // (cm.NCPU * 2) + 1))
+        outs = sc.coq_eval_blocks(PID, sc.HEADER, exprs, per_file=max(4, len(exprs) // (cm.NCPU * 3) + 1))
         for i, o in zip(idx, outs):
             m = sc.parse_coq_value(o)
             impl = [1 if b else 0 for b in results[i]["contained"]]
             d = []
             for j, (a, b, cl) in enumerate(zip(m, impl, classes[i])):
+                exact = exact_point(cases[i]["shape"], cases[i]["points"][j])
+                n_exact += 1 if exact else 0
                 if a != b:
-                    if cl == "band":
+                    if exact:
+                        d.append(f"point {j} = {cases[i]['points'][j]} ({cl}, every operation exact in binary64): model {a} vs implementation {b}")
+                    elif cl == "band":
                         band_diff += 1
                     else:
                         d.append(f"point {j} = {cases[i]['points'][j]} ({cl}): model {a} vs implementation {b}")
@@ -426,6 +595,7 @@ def run(tier, seed, replay=None):
     R.cov["traces_validated_against_impl"] = len(idx) - ndiff
     R.cov["correspondence_disagreements"] = ndiff
     R.cov["in_band_model_impl_differences"] = band_diff
+    R.cov["points_compared_exactly"] = n_exact
 
     hist = {}
     hist_pt = {}
